@@ -189,6 +189,41 @@ def run_case(case):
                         if any(o > 0 and e == 0 for o, e in zip(obs, exp)) or p < 1e-9:
                             vs.append({"clause": "draws are independent across different stochastic variables",
                                        "detail": f"period {t}: variables {a},{b} given rows {da},{db}: joint counts {obs}, expected {exp}, p={p:.3g}"})
+            # across agents: the draws of agents i and i+L (same conditioning row) must agree with probability sum p_k^2 - for
+            # every lag L, in particular the powers of two at which a blocked / chunked key schedule would repeat itself
+            import math as _m
+
+            lags = [1, 2, 3] + [2 ** k for k in range(6, 20) if 2 ** k < n // 2]
+            for t in range(T - 1):
+                for nm in names:
+                    x = nm.removeprefix("next_")
+                    deps_of = [tuple(t if a == "_period" else int(cols[a][t * n + i]) for a in fargs[nm]) for i in range(n)]
+                    nxt = cols[x][(t + 1) * n:(t + 2) * n]
+                    for L in lags:
+                        per_row = {}
+                        for i in range(n - L):
+                            if deps_of[i] == deps_of[i + L]:
+                                a_ = per_row.setdefault(deps_of[i], [0, 0])
+                                a_[0] += 1
+                                a_[1] += int(nxt[i] == nxt[i + L])
+                        for d_, (N_, hit) in per_row.items():
+                            row = shocks[x][d_]
+                            mprob = float((row ** 2).sum())
+                            if N_ < 300 or not (0.02 < mprob < 0.98):
+                                continue
+                            z = (hit - N_ * mprob) / _m.sqrt(N_ * mprob * (1 - mprob))
+                            evals += 1
+                            out["hist"]["lag_tests"] = out["hist"].get("lag_tests", 0) + 1
+                            if abs(z) > 6.5:
+                                vs.append({"clause": "draws are independent across agents",
+                                           "detail": f"period {t} variable {x} row {row.tolist()} (deps {d_}): agents i and i+{L} drew the same label in {hit} of {N_} pairs, expected {N_ * mprob:.1f} (z = {z:.1f})"})
+                                break
+                        if vs:
+                            break
+                    if vs:
+                        break
+                if vs:
+                    break
             # cross-period: the same agent's draws for one variable in consecutive periods must not be identical everywhere
             if T > 2:
                 for nm in names:
